@@ -1,6 +1,6 @@
 SPECIFICATION Spec
 CONSTANTS
-  K = 1
+  K = 0
   Mode = "pairs"
   Deviation = "none"
 INVARIANTS ConstructionMatchesAbstract ImplMatchesAbstract AtMostOne Emit
